@@ -746,6 +746,7 @@ def ssqrt(x):
         xt = _real(x)
         s = z3.FreshReal('sqrt')
     c.solver.add(s >= 0, s * s == xt)
+    c.bounds[s.decl().name()] = [s >= 0, s * s == xt]
     return SNum(s)
 
 
